@@ -100,7 +100,7 @@ theorem Wtot_sfold (s : St α) : Wtot s = sfold s.rule WindingState.new (sigs s)
 theorem sigs_getElem? (s : St α) (k : Nat) : (sigs s)[k]? = (s.active[k]?).map sigOf := by
   simp [sigs]
 
-theorem Coh.merges_sig' {s : St α} (h : Coh s) (k : Nat) (x : Bool × Int) (hk : (sigs s)[k]? = some x)
+theorem Coh.merges_sigs {s : St α} (h : Coh s) (k : Nat) (x : Bool × Int) (hk : (sigs s)[k]? = some x)
     (hx : x.1 = true) : (WatS s.rule (sigs s) k).isIn = true := by
   rw [sigs_getElem?] at hk
   cases he : s.active[k]? with
@@ -115,8 +115,9 @@ theorem Coh.merges_sig' {s : St α} (h : Coh s) (k : Nat) (x : Bool × Int) (hk 
 
 theorem coh_of_sig {s : St α} (hl : SomeExcept [] s.spans) (hs : (s.spans.size : Int) = (Wtot s).spanIndex + 1)
     (ho : (Wtot s).isIn = false)
-    (hm : ∀ k x, (sigs s)[k]? = some x → x.1 = true → (WatS s.rule (sigs s) k).isIn = true) : Coh s := by
-  refine ⟨hl, hs, ho, ?_⟩
+    (hm : ∀ k x, (sigs s)[k]? = some x → x.1 = true → (WatS s.rule (sigs s) k).isIn = true)
+    (hz : ∀ x ∈ sigs s, x.1 = true → x.2 = 0) : Coh s := by
+  refine ⟨hl, hs, ho, ?_, hz⟩
   intro k e he hme
   rw [Wat_eq_WatS]
   refine hm k (sigOf e) ?_ hme
@@ -234,7 +235,18 @@ theorem coh_after {s0 s' : St α} {scan : Scan} {W : List Int} (hok : ScanOk s0 
     generalize cntIn s0 scan.aboveStart scan.aboveEnd = cnt at hmid h1 ⊢
     push_cast [Int.ofNat_sub h1] at hmid ⊢
     omega
-  refine coh_of_sig hN.live hsize (by rw [hTi]; exact hc.out) ?_
+  refine coh_of_sig hN.live hsize (by rw [hTi]; exact hc.out) ?_ ?_
+  rotate_left
+  · rw [hsg]
+    intro x hx hx1
+    simp only [List.mem_append, List.mem_map] at hx
+    rcases hx with ((hx | hx) | hx) | hx
+    · exact hc.mz x (List.mem_of_mem_take hx) hx1
+    · cases hme : scan.mergeEvent
+      · rw [hme] at hx; simp at hx
+      · rw [hme] at hx; simp at hx; rw [hx]
+    · obtain ⟨k, _, rfl⟩ := hx; cases hx1
+    · exact hc.mz x (List.mem_of_mem_drop hx) hx1
   rw [hrule, hsg]
   apply merges_sig
   · intro k x hk hx
@@ -242,7 +254,7 @@ theorem coh_after {s0 s' : St α} {scan : Scan} {W : List Int} (hok : ScanOk s0 
       have := (List.getElem?_eq_some_iff.mp hk).1
       simp at this; omega
     rw [List.getElem?_take_of_lt hk'] at hk
-    have := hc.merges_sig' k x hk hx
+    have := hc.merges_sigs k x hk hx
     unfold WatS at this ⊢
     rw [List.take_take, Nat.min_eq_left (by omega)]
     exact this
@@ -257,7 +269,7 @@ theorem coh_after {s0 s' : St α} {scan : Scan} {W : List Int} (hok : ScanOk s0 
     rw [sfold_append, sfold_append, ← hw0, ← hwMd]
     show (sfold s0.rule (pfold s0.rule wM W) _).isIn = true
     have hj' : (sigs s0)[scan.aboveEnd + j]? = some x := by rw [List.getElem?_drop] at hj; exact hj
-    have h1 := hc.merges_sig' (scan.aboveEnd + j) x hj' hx
+    have h1 := hc.merges_sigs (scan.aboveEnd + j) x hj' hx
     have h2 := Wat_split s0 (k := scan.aboveEnd) (m := scan.aboveEnd + j) (by omega)
     rw [← Wat_eq_WatS, h2] at h1
     have e : ((sigs s0).take (scan.aboveEnd + j)).drop scan.aboveEnd = ((sigs s0).drop scan.aboveEnd).take j := by
